@@ -284,6 +284,50 @@ def k_step(fn: ast.FunctionDef) -> dict:
     return {"stepClips": u(last).replace(" ", "") == "coords.move_to_bounds()"}
 
 
+# rayleigh_ritz_function_gradient, statement by statement (Model/Hef.lean `rayleighCoded` is the transcription of the
+# six arithmetic statements; the guards and the removal of rigid motions return / act before and after them).
+# `{disp}` is the displacement literal, which is read and emitted.
+RAYLEIGH = ["displacement = {disp}",
+            "central_point = np.array(args)",
+            "if np.any(np.isnan(vec)):\n    return (0.0, np.zeros(np.size(vec), dtype=float))",
+            "if np.linalg.norm(vec) == 0.0:\n    return (0.0, np.zeros(np.size(vec), dtype=float))",
+            "if self.remove_trans_rot:\n    vec /= np.linalg.norm(vec)\n    vec = self.remove_zero_eigenvectors(vec, central_point)",
+            "vec /= np.linalg.norm(vec)",
+            "grad_plus = self.potential.gradient(central_point + displacement * vec)",
+            "grad_minus = self.potential.gradient(central_point - displacement * vec)",
+            "delta_grad = grad_plus - grad_minus",
+            "f_val = np.dot(delta_grad, vec) / (2.0 * displacement)",
+            "grad = delta_grad / displacement - 2.0 * f_val * vec",
+            "if self.remove_trans_rot:\n    grad = self.remove_zero_eigenvectors(grad, central_point)",
+            "return (f_val, grad)"]
+
+
+def k_rayleigh(fn: ast.FunctionDef) -> Fraction:
+    """the displacement literal, provided every statement of the function is the one the model was transcribed from
+    (modulo the names of locals)"""
+    from .ktn_cfg import normalised, statements
+    args = [a.arg for a in fn.args.args]
+    if args != ["self", "vec"] or fn.args.vararg is None or fn.args.vararg.arg != "args" or fn.args.kwonlyargs or fn.args.kwarg:
+        raise Unavailable(f"rayleigh_ritz_function_gradient: signature {args}")
+    body = [s_ for s_ in fn.body if not (isinstance(s_, ast.Expr) and isinstance(s_.value, ast.Constant)
+                                         and isinstance(s_.value.value, str))]
+    if not body or not (isinstance(body[0], ast.Assign) and isinstance(body[0].value, ast.Constant)
+                        and type(body[0].value.value) in (int, float)):
+        raise Unavailable("rayleigh_ritz_function_gradient: the displacement is not a literal: "
+                          + (ast.unparse(body[0])[:60] if body else "empty body"))
+    disp = body[0].value.value
+    got = statements(fn)
+    keep = args + ["args"]
+    want = normalised(ast.parse("\n".join(x.replace("{disp}", repr(disp)) for x in RAYLEIGH)).body, keep)
+    got = normalised(body, keep)
+    if got != want:
+        for k, (a, b) in enumerate(zip(got, want)):
+            if a != b:
+                raise Unavailable(f"rayleigh_ritz_function_gradient: statement {k + 1} is `{a[:60]}`, transcribed from `{b[:60]}`")
+        raise Unavailable(f"rayleigh_ritz_function_gradient: {len(got)} statements, transcribed from {len(want)}")
+    return Fraction(repr(disp))
+
+
 def regenerate() -> dict:
     status: dict = {}
     vals = dict(DEFAULTS)
@@ -311,6 +355,13 @@ def regenerate() -> dict:
             status[f"Hef.{name}"] = f"unavailable ({e}); correspondence is the only tie"
         except Exception as e:  # malformed source for this grammar: unavailable, never a crash
             status[f"Hef.{name}"] = f"unavailable ({type(e).__name__}: {e})"
+    disp = None
+    if tree is not None:
+        try:
+            disp = k_rayleigh(find_function(tree, "rayleigh_ritz_function_gradient", CLS))
+            status["Hef.rayleigh_ritz_function_gradient"] = f"transcription verified statement by statement, displacement {disp}"
+        except Unavailable as e:
+            status["Hef.rayleigh_ritz_function_gradient"] = f"unavailable ({e}); correspondence is the only tie"
     fields = []
     for k, v in vals.items():
         if isinstance(v, bool):
@@ -332,6 +383,10 @@ def regenerate() -> dict:
             f"  {{ {body} }}\n"
             "/-- the values `check_valid_eigenvector` stores in `self.failure`, in the order of its tests -/\n"
             f"def validReasons : List String := [{rs}]\n"
+            "/-- the finite-difference displacement of `rayleigh_ritz_function_gradient` (numerator, denominator); the rest\n"
+            "    of that function is checked statement by statement against the transcription `rayleighCoded` -/\n"
+            f"def rayleighDisp : Nat × Nat := ({(disp or Fraction(1, 1000)).numerator}, {(disp or Fraction(1, 1000)).denominator})"
+            f"{'' if disp is not None else '  -- kernel unavailable'}\n"
             "end TopSearch.Gen.Hef\n")
     status["Gen/Hef.lean rewritten"] = write_if_changed("Hef.lean", text)
     return status
